@@ -111,6 +111,52 @@ example : normaliseCalProducts (.str "all") ["l1"]
     = .ok (["l1.K", "l1.B", "l1.G", "l1.GPHASE", "l1.GAMP_PHASE"], true) := by decide
 example : normaliseCalProducts (.seq ["l1.G", "X"]) ["l1"] = .error .value := by decide
 
+/-! ### skipping / rejecting missing products (`calc_correction`) -/
+
+section missing
+variable {S F : Type} [Sub F] [Neg F] [Zero F] [LT F] [DecidableLT F]
+
+/-- **c14_missing_product** — a requested product for which some input has no correction sensor is
+    skipped (the loop goes on as if it had not been requested) when `skip_missing_products` is set, and
+    is a `KeyError` otherwise -/
+theorem c14_missing_product (sensors : String → String → Option (List (List S))) (inputs : List String)
+    (dataFreqs : List F) (allCalFreqs : String → Option (List F)) (atol : F) (name stream ty : String)
+    (rest : List String) (acc : List (Product S)) (last : Option (List Nat))
+    (hparse : parseCalProduct name = some (stream, ty)) (hmiss : fetchSensors sensors name inputs = none) :
+    productLoop sensors inputs dataFreqs allCalFreqs atol true (name :: rest) acc last
+      = productLoop sensors inputs dataFreqs allCalFreqs atol true rest acc last ∧
+    productLoop sensors inputs dataFreqs allCalFreqs atol false (name :: rest) acc last = .error .key := by
+  constructor
+  · rw [productLoop]; simp [hparse, hmiss]
+  · rw [productLoop]; simp [hparse, hmiss]
+
+/-- a sensor is missing exactly when some input has none -/
+theorem c14_missing_iff (sensors : String → String → Option (List (List S))) (name : String) :
+    ∀ inputs : List String, fetchSensors sensors name inputs = none ↔ ∃ inp ∈ inputs, sensors name inp = none
+  | [] => by simp [fetchSensors]
+  | inp :: t => by
+    have ih := c14_missing_iff sensors name t
+    unfold fetchSensors
+    cases hs : sensors name inp with
+    | none => simp [hs]
+    | some s =>
+      cases hr : fetchSensors sensors name t with
+      | none =>
+        have := ih.mp hr
+        simp only [hs, hr, Option.map_none, true_iff, List.mem_cons, exists_eq_or_imp]
+        exact Or.inr this
+      | some r =>
+        have : ¬ ∃ inp ∈ t, sensors name inp = none := fun h => by
+          have := ih.mpr h; rw [hr] at this; cases this
+        simp only [Option.map_some, List.mem_cons, exists_eq_or_imp, hs]
+        constructor
+        · intro h; cases h
+        · rintro (h | h)
+          · cases h
+          · exact absurd h this
+
+end missing
+
 /-! ### multi-part products -/
 
 /-- **c14_stitch** — for parts whose timestamps are strictly increasing, the stitching loop terminates
